@@ -18,7 +18,8 @@ from .. import impl_c15 as I
 LEAN_MODULES = ['Props.C15']
 TRUSTED = [
     'harness/impl_c15.py (fault injector: wrappers around is_same_file / open / NamedTemporaryFile / '
-    'file.write / close / os.replace / os.remove installed from outside; directory audit; fork+os._exit kill)',
+    'file.write / close of the temp file / close of the source file / os.replace / os.remove installed from outside, '
+    'raising OSError, a BaseException (KeyboardInterrupt, SystemExit, GeneratorExit) or os._exit; directory audit; fork)',
     'harness/props/c15.py (scenario generator, op-index arithmetic, temp-name canonicaliser)',
     'CPython io/tempfile/os, glob.glob; ruamel.yaml, tomli_w, json as chunk producers',
 ]
@@ -35,12 +36,16 @@ ASSUMPTIONS = [
     "None / '' / a spelling), whether Path(out) is an existing directory (read from the scratch tree by the harness) and "
     'the number of paths `in` matched (stdlib glob); the working directory is part of the scenario; what a relative '
     'spelling resolves to is in the link table (os.path.realpath)',
-    'single-fault plans (plus the double fault "rename/write fails and os.remove fails too"); creation of missing '
-    'out directories for in-place edits, concurrent writers and Windows are outside the modelled domain',
+    'single-fault plans (plus the double faults "rename/write fails and os.remove raises OSError / KeyboardInterrupt"); '
+    'creation of missing out directories for in-place edits, concurrent writers and Windows are outside the modelled domain',
+    'the close of the source file while an error propagates (the implicit __exit__ of `with open(in_path)`) is not an '
+    'operation of the model: it cannot change the directory',
+    'file modes are not part of the directory state: NamedTemporaryFile creates the temp file 0600, so a source that '
+    'was 0644 is 0600 after a successful in-place rewrite (observed and counted by the harness: extra.mode_after_inplace)',
     'same-file-ness: the link table handed to the model (spelling -> entry = os.path.realpath, entry -> inode id = '
     'os.lstat) is read from the scratch tree by the harness before the run; that CPython os.path.samefile / '
-    'isfile agree with it is validated by the correspondence only. An `in` path whose LAST component is a symlink '
-    '(os.replace then replaces the link, not its target) is outside the model: monitor only',
+    'isfile agree with it is validated by the correspondence only. An `in` path whose LAST component is a symlink: '
+    'the model replaces the link entry (Job.dst), the target keeps its bytes (theorem symlink_in_replaces_link)',
 ]
 
 
@@ -49,8 +54,11 @@ ASSUMPTIONS = [
 # --------------------------------------------------------------------------
 
 def n_ops(style, k, inplace):
-    body = 2 * k if style == 'stream' else 1 + k
-    return 3 + body + (2 if inplace else 1)
+    """stream: sameFile openRead mkTemp|openWrite (fmt write)*k close closeIn [replace]
+       object: sameFile openRead closeIn mkTemp|openWrite fmt write*k close [replace]"""
+    if style == 'stream':
+        return 3 + 2 * k + (3 if inplace else 2)
+    return 4 + 1 + k + (2 if inplace else 1)
 
 
 def local_index(style, k, label, n):
@@ -58,11 +66,16 @@ def local_index(style, k, label, n):
         return 0
     if label == 'openRead':
         return 1
-    if label in ('mkTemp', 'openWrite'):
-        return 2
     if style == 'stream':
-        return {'fmt': 2 * n + 1, 'write': 2 * n + 2, 'close': 3 + 2 * k, 'replace': 4 + 2 * k}[label]
-    return {'fmt': 3, 'write': 3 + n, 'close': 4 + k, 'replace': 5 + k}[label]
+        if label in ('mkTemp', 'openWrite'):
+            return 2
+        return {'fmt': 2 * n + 1, 'write': 2 * n + 2, 'close': 3 + 2 * k, 'closeIn': 4 + 2 * k,
+                'replace': 5 + 2 * k}[label]
+    if label == 'closeIn':
+        return 2
+    if label in ('mkTemp', 'openWrite'):
+        return 3
+    return {'fmt': 4, 'write': 4 + n, 'close': 5 + k, 'replace': 6 + k}[label]
 
 
 def tmp_name(src, pos):
@@ -110,11 +123,38 @@ def doc_for(m, tag, toml=False):
     return d
 
 
-def spec_for(step, size, tag):
+def spec_for(step, size, tag, twice=False):
+    """`twice`: content whose rewrite is idempotent (no `{{`/`}}` escapes), for files rewritten more than once."""
     style = I.style_of(step)
     if style == 'stream':
+        if twice and step == 'fileformat':
+            lines = [f'{tag} d{i} {{k1}} é {{k3}}\n' if i % 2 else f'plain {tag} {i}\n' for i in range(1, size + 1)]
+            return {'lines': lines}
         return {'lines': lines_for(size, tag, fmt=(step == 'fileformat'))}
     return {'doc': doc_for(size, tag, toml=(step == 'fileformattoml'))}
+
+
+def overlap_scenarios(step, ext, mk, other):
+    """`in` matching a file more than once (get_glob chains the per-pattern globs without de-duplication; a glob
+    that matches a symlink and its target), and runs in which one job is in place and another is a direct write."""
+    a, b = 'a' + ext, 'b' + ext
+    two = [[a, spec_for(step, 2, 'A', twice=True)], [b, spec_for(step, 1, 'B', twice=True)]] + other
+    out = []
+    out.append(mk('dup-list', two, {'kind': 'list', 'paths': ['*' + ext, a]}, [a, b, a]))
+    out.append(mk('dup-same', two, {'kind': 'list', 'paths': [a, a]}, [a, a]))
+    scn = mk('dup-globlink', two, {'kind': 'glob', 'paths': ['*' + ext]}, [a, b, a])
+    scn['links'] = [['symlink', 'ln' + ext, a]]
+    out.append(scn)
+    d1a, d2a, d2b = 'd1/' + a, 'd2/' + a, 'd2/' + b
+    scn = mk('mixed-overlap', [[d1a, spec_for(step, 2, 'A')], [d2a, spec_for(step, 2, 'B')]] + other,
+             {'kind': 'list', 'paths': [d1a, d2a]}, [d1a, d2a], {'kind': 'dir', 'path': 'd1'})
+    scn['mixed'] = 'overlap'       # job 2 is a direct write onto the source job 1 has just edited in place
+    out.append(scn)
+    scn = mk('mixed-disjoint', [[d1a, spec_for(step, 2, 'A')], [d2b, spec_for(step, 2, 'B')]] + other,
+             {'kind': 'list', 'paths': [d1a, d2b]}, [d1a, d2b], {'kind': 'dir', 'path': 'd1'})
+    scn['mixed'] = 'disjoint'      # job 1 in place, job 2 a direct write to a new file next to it
+    out.append(scn)
+    return out
 
 
 def base_scenarios(quick):
@@ -177,6 +217,7 @@ def base_scenarios(quick):
                                   {'kind': 'single', 'paths': [a]}, [a], {'kind': 'same', 'path': './' + a}, enc))
                     out.append(mk('encout-' + name, [[a, spec_for(step, 3, 'A')]] + other,
                                   {'kind': 'single', 'paths': [a]}, [a], {'kind': 'file', 'path': 'out' + ext}, enc))
+        out += overlap_scenarios(step, ext, mk, other)
         out += alias_scenarios(step, ext)
         out += outopt_scenarios(step, ext)
     return out
@@ -208,9 +249,9 @@ ALIAS_FORMS = [
     ('ctl-copy',            ('A', False),   ('file', 'COPY', False),         False, True),
     ('ctl-symlink-to-copy', ('A', False),   ('file', 'LNCOPY', False),       False, True),
     ('ctl-same-name-dir',   ('A', False),   ('dir', 'cd', False),            False, True),
-    # `in` itself is a symlink (last component): outside the model, monitor only
-    ('in-is-symlink',       ('LN', False),  None,                            True, False),
-    ('in-is-symlink-out-target', ('LN', False), ('same', 'A', False),        True, False),
+    # `in` itself is a symlink (last component): os.replace replaces the link (Job.dst), the target is not edited
+    ('in-is-symlink',       ('LN', False),  None,                            True, True),
+    ('in-is-symlink-out-target', ('LN', False), ('same', 'A', False),        True, True),
 ]
 
 
@@ -396,10 +437,15 @@ def content_problem(scn, spec_rel, got, what='a successful rewrite'):
     return None
 
 
-def new_content_problem(scn, ref_after):
+def new_content_problem(scn, ref_after, obs=None):
     """Compare what the fault-free reference run left in each matched source with the content the
-    generator constructed. None if all good."""
-    for src in scn['matched']:
+    generator constructed. None if all good. The content is looked up at the directory entry the in path
+    names (the link itself when the in path is a symlink: that is what a successful rewrite replaces)."""
+    pairs = list(zip(obs['order'], obs['in_entries'])) if obs and len(obs.get('in_entries', [])) == len(obs['order']) \
+        else [(s, s) for s in scn['matched']]
+    for src, entry in pairs:
+        if scn.get('mixed') == 'overlap' and src == scn['matched'][0]:
+            continue        # overwritten by the second job's direct write (documented: mixed_run_sources_whole)
         if not is_inplace(scn, src):
             # out is another file: it must hold the new content (in the OUT encoding)
             o = canonical_out_entry(scn, src)
@@ -408,7 +454,7 @@ def new_content_problem(scn, ref_after):
                 if prob:
                     return prob
             continue
-        prob = content_problem(scn, src, bytes.fromhex(ref_after.get(src, '')))
+        prob = content_problem(scn, src, bytes.fromhex(ref_after.get(entry, '')))
         if prob:
             return prob
     return None
@@ -429,30 +475,49 @@ def is_inplace(scn, src):
     return o is None or os.path.normpath(o) == os.path.normpath(src)
 
 
+BASE_EXCS = ['KeyboardInterrupt', 'SystemExit', 'GeneratorExit']
+
+
 def fault_points(scn, ks, rng=None):
-    """Every modelled fault point of a base scenario. `ks`: {src: number of writes} from the probe."""
+    """Every modelled fault point of a base scenario. `ks`: {src: number of writes} from the probe. A source
+    matched more than once gets the injected faults for every one of its rewrites (`occ`)."""
     step = scn['step']
     style = I.style_of(step)
     pts = []
+    counts = {}
     for src in scn['matched']:
+        counts[src] = counts.get(src, 0) + 1
+    for src, cnt in counts.items():
+      for occ in range(cnt):
         k = ks.get(src)
         if k is None:
             continue
         inplace = is_inplace(scn, src)
-        for kind in ('raise', 'kill'):
+        more = {'occ': occ} if occ else {}
+        for kind in ('raise', 'kill', 'raiseBase'):
             for label in ('sameFile', 'openRead', 'mkTemp' if inplace else 'openWrite'):
-                pts.append({'src': src, 'op': label, 'n': 0, 'kind': kind, 'via': 'inject'})
+                pts.append({'src': src, 'op': label, 'n': 0, 'kind': kind, 'via': 'inject', **more})
             for n in range(1, k + 1):
-                pts.append({'src': src, 'op': 'write', 'n': n, 'kind': kind, 'via': 'inject'})
-            pts.append({'src': src, 'op': 'close', 'n': 0, 'kind': kind, 'via': 'inject'})
+                pts.append({'src': src, 'op': 'write', 'n': n, 'kind': kind, 'via': 'inject', **more})
+            pts.append({'src': src, 'op': 'close', 'n': 0, 'kind': kind, 'via': 'inject', **more})
+            pts.append({'src': src, 'op': 'closeIn', 'n': 0, 'kind': kind, 'via': 'inject', **more})
             if inplace:
-                pts.append({'src': src, 'op': 'replace', 'n': 0, 'kind': kind, 'via': 'inject'})
+                pts.append({'src': src, 'op': 'replace', 'n': 0, 'kind': kind, 'via': 'inject', **more})
+            if occ:
+                continue        # content-borne faults fire in the first rewrite
             if step == 'fileformat':
                 for n in range(1, k + 1):
                     pts.append({'src': src, 'op': 'fmt', 'n': n, 'kind': kind, 'via': 'bomb'})
             elif style == 'object':
                 pts.append({'src': src, 'op': 'fmt', 'n': 0, 'kind': kind, 'via': 'bomb'})
                 pts.append({'src': src, 'op': 'fmt', 'n': 0, 'kind': kind, 'via': 'bomb', 'first': True})
+        if inplace and not occ:
+            # the other BaseExceptions that are not Exceptions
+            for exc in BASE_EXCS[1:]:
+                pts.append({'src': src, 'op': 'write', 'n': k, 'kind': 'raiseBase', 'via': 'inject', 'exc': exc})
+                pts.append({'src': src, 'op': 'replace', 'n': 0, 'kind': 'raiseBase', 'via': 'inject', 'exc': exc})
+        if occ:
+            continue
         # faults that arise by themselves
         if step == 'fileformat':
             for n in range(1, k + 1):
@@ -463,9 +528,11 @@ def fault_points(scn, ks, rng=None):
             pts.append({'src': src, 'op': 'write', 'n': 0, 'kind': 'raise', 'via': 'serialise', 'first': True})
             pts.append({'src': src, 'op': 'openRead', 'n': 0, 'kind': 'raise', 'via': 'badsource'})
         if inplace:
-            # double faults: the clean-up os.remove fails as well
+            # double faults: the clean-up os.remove fails as well (OSError: swallowed; KeyboardInterrupt: propagates)
             pts.append({'src': src, 'op': 'replace', 'n': 0, 'kind': 'raise', 'via': 'inject', 'remove_fails': True})
             pts.append({'src': src, 'op': 'write', 'n': 1, 'kind': 'raise', 'via': 'inject', 'remove_fails': True})
+            pts.append({'src': src, 'op': 'replace', 'n': 0, 'kind': 'raise', 'via': 'inject', 'remove_fails': 'base'})
+            pts.append({'src': src, 'op': 'write', 'n': k, 'kind': 'raise', 'via': 'inject', 'remove_fails': 'base'})
     return pts
 
 
@@ -477,25 +544,35 @@ def model_request(scn, obs):
     """Build the fsrewrite.run request from the scenario + what the reference run wrote."""
     style = I.style_of(scn['step'])
     fault = scn.get('fault')
-    refjobs = {j['src']: j for j in obs['ref'].get('jobs', [])}
-    jobs, offset, plan = [], 0, []
+    refl = obs['ref'].get('jobs', [])
+    by_pos = [j['src'] for j in refl] == list(obs['order'])
+    refjobs = {j['src']: j for j in refl}
+    ents = obs.get('in_entries') or []
+    jobs, offset, plan, seen = [], 0, [], {}
     for pos, src in enumerate(obs['order']):
-        rj = refjobs.get(src, {'chunks': []})
+        occ = seen.get(src, 0)
+        seen[src] = occ + 1
+        rj = refl[pos] if by_pos else refjobs.get(src, {'chunks': []})
         chunks = rj['chunks']
         k = len(chunks)
         inplace = is_inplace(scn, src)
-        jobs.append({'src': src, 'out': I.out_spelling(scn, src), 'tmp': tmp_name(src, pos), 'style': style,
-                     'chunks': chunks})
-        if fault and fault['src'] == src and not plan:
+        ent = ents[pos] if pos < len(ents) else src
+        dst = ent if ent != src else None       # the in path's last component is a symlink
+        job = {'src': src, 'out': I.out_spelling(scn, src), 'tmp': tmp_name(dst or src, pos), 'style': style,
+               'chunks': chunks}
+        if dst:
+            job['dst'] = dst
+        jobs.append(job)
+        if fault and fault['src'] == src and fault.get('occ', 0) == occ and not plan:
             n = fault.get('n', 0)
             if fault['via'] == 'serialise':
                 # the serialiser raised between writes: the next write never happened
-                done = [j for j in obs['jobs'] if j['src'] == src]
+                done = [j for j in obs['jobs'] if j['src'] == src and j.get('occ', 0) == occ]
                 n = (len(done[0]['chunks']) if done else 0) + 1
             p = offset + local_index(style, k, fault['op'], n)
             plan.append([p, fault['kind']])
             if fault.get('remove_fails'):
-                plan.append([p + 1, 'raise'])
+                plan.append([p + 1, 'raiseBase' if fault['remove_fails'] == 'base' else 'raise'])
         offset += n_ops(style, k, inplace)
     fs = [[name, data] for name, data in obs['before'].items()]
     return {'fs': fs, 'jobs': jobs, 'plan': plan, 'cleanup': True, 'links': obs['links'], 'outopt': obs['outopt']}
@@ -506,7 +583,7 @@ def canonical_after(obs):
     tmap = {}
     for pos, j in enumerate(obs['jobs']):
         if j.get('tmp'):
-            tmap[j['tmp']] = tmp_name(j['src'], pos)
+            tmap[j['tmp']] = tmp_name(j['tmp'], pos)      # the directory the temp file was made in
     return dict(sorted((tmap.get(name, name), data) for name, data in obs['after'].items()))
 
 
@@ -641,6 +718,12 @@ def run_case(drv, scn):
     mevents = [e for e in m['events'] if e not in drop]
     model = {'end': m['outcome']['end'], 'final': mfinal, 'events': mevents}
     impl = {'end': obs['outcome']['end'], 'final': after, 'events': [e for e in obs['events'] if e not in drop]}
+    if m['outcome']['end'] == 'raised' or obs['outcome']['end'] == 'raised':
+        # WHICH error reaches the caller: an Exception, or the BaseException of the fault plan (a KeyboardInterrupt must
+        # not be swallowed by a handler of the protocol, nor an OSError be turned into one)
+        kinds = {p_: k_ for p_, k_ in req['plan']}
+        model['base'] = m['outcome']['end'] == 'raised' and kinds.get(m['outcome'].get('at')) == 'raiseBase'
+        impl['base'] = bool(obs['outcome'].get('base'))
     rec['model'], rec['impl'] = model, impl
     rec['impl_detail'] = {'outcome': obs['outcome'], 'before': obs['before'], 'order': obs['order']}
     notes = []
@@ -651,7 +734,7 @@ def run_case(drv, scn):
         notes.append(f"glob matched {obs['order']}, generator expected {scn['matched']}")
     if not tmp_ok:
         notes.append('bytes of a leftover temp file are not a prefix of what the model wrote to it')
-    if not m.get('wholeEverywhere', True):
+    if not m.get('wholeEverywhere', True) and scn.get('mixed') != 'overlap':
         notes.append('model trace contains a state in which a source is neither original nor new')
     # ---- the route taken, job by job (as far as the implementation got)
     mroutes, iroutes = [], []
@@ -671,27 +754,42 @@ def run_case(drv, scn):
     if notes:
         rec['mismatch'] = '; '.join(notes)
     if obs['ref']['ok'] and not (fault and fault.get('via') == 'badsource'):
-        prob = new_content_problem(scn, obs['ref']['after'])
+        prob = new_content_problem(scn, obs['ref']['after'], obs)
         if prob:
             rec['ref_problem'] = prob
-    # ---- the monitor, on the implementation's own before/after (in-place scenarios only)
-    if all(is_inplace(scn, s) for s in scn['matched']) and obs['ref']['ok']:
+    # ---- the monitor, on the implementation's own before/after (in-place scenarios only; an in path that is a
+    #      symlink replaces the link entry: the alias monitor judges those)
+    link_in = list(obs.get('in_entries') or obs['order']) != list(obs['order'])
+    if all(is_inplace(scn, s) for s in scn['matched']) and obs['ref']['ok'] and not link_in:
         srcs = [[s, obs['ref']['after'].get(s, '')] for s in scn['matched']]
         end = obs['outcome']['end']
         if end in ('ok', 'raised', 'killed'):
             v = drv.ask('fsrewrite.judge', before=[[n, d] for n, d in obs['before'].items()],
                         after=[[n, d] for n, d in after.items()], srcs=srcs, end=end)
+            v['full'] = v['holds']
             double = bool(fault and fault.get('remove_fails'))
             if double:
-                # the clean-up itself was made to fail: only "source whole / unmatched untouched" is claimed
-                v['holds'] = v['srcWhole'] and v['unmatchedSame'] and v['noneMissing']
+                # the clean-up itself was made to fail: everything but "no temp left behind" is claimed
+                # (theorems cleanup_failure_leaves_temp / model_holds_C15_dirty)
+                v['holds'] = v['holdsDirty']
             rec['verdict'] = v
+    # ---- file modes (not part of the property: observed and counted)
+    if obs['outcome']['end'] == 'ok' and not fault:
+        for s_, (mb, ma) in sorted((obs.get('modes') or {}).items()):
+            if is_inplace(scn, s_) and ma is not None:
+                rec['counts'].append(f'mode-after-inplace:{mb:o}->{ma:o}')
     rec['counts'] += ['step:' + scn['step'], 'layout:' + scn['layout'].split('-')[0],
                       'end:' + str(obs['outcome']['end']),
                       'fault:' + (f"{fault['op']}/{fault['kind']}/{fault['via']}" if fault else 'none'),
                       'jobs:' + str(len(obs['order']))]
     if fault and fault.get('remove_fails'):
-        rec['counts'].append('double-fault')
+        rec['counts'].append('double-fault' + ('-base' if fault['remove_fails'] == 'base' else ''))
+    if fault and fault['kind'] == 'raiseBase':
+        rec['counts'].append('base-exception:' + fault.get('exc', 'KeyboardInterrupt'))
+    if scn.get('mixed') == 'overlap' and obs['outcome']['end'] != 'ok':
+        first = scn['matched'][0]
+        whole = after.get(first) in (obs['before'].get(first), obs['ref']['after'].get(first))
+        rec['counts'].append('mixed-overlap:source-of-job1-' + ('whole' if whole else 'left-partial-by-job2'))
     return rec
 
 
@@ -756,12 +854,23 @@ def absorb(res, rec):
         clauses = [k for k in ('srcWhole', 'okAllNew', 'noExtra', 'noneMissing', 'unmatchedSame') if not v[k]]
         leftover = 'temp' if any(os.path.basename(n).startswith(('tmp#', 'tmp')) and n not in rec['impl_detail']['before']
                                  for n in rec['impl']['final']) else 'none'
+        only_temp = clauses == ['noExtra'] and v.get('holdsDirty') and leftover == 'temp'
+        cause = 'other'
+        if only_temp and fault.get('kind') == 'raiseBase':
+            # KeyboardInterrupt / SystemExit / GeneratorExit pass an `except Exception:` clean-up by (repaired by 66bb5ed)
+            cause = 'base-exception-passes-except-Exception'
+        elif only_temp and fault.get('op') == 'closeIn' and fault.get('kind') == 'raise':
+            cause = 'source-close-fails-outside-try'
+        exc = (rec['impl_detail']['outcome'] or {}).get('exc')
         res.violation(
             scn,
-            f"C15 monitor false on the implementation's directory: clauses {clauses}; run ended {rec['impl']['end']}",
+            f"C15 monitor false on the implementation's directory: clauses {clauses}; run ended {rec['impl']['end']}"
+            + (f" ({exc})" if exc else '')
+            + ('; the source is intact, but the temporary file is left in the directory while the process lives on'
+               if only_temp else ''),
             signature={'site': 'in_to_out', 'step': scn['step'], 'clauses': ','.join(clauses),
                        'fault': f"{fault.get('op', 'none')}/{fault.get('kind', '-')}/{fault.get('via', '-')}",
-                       'leftover': leftover},
+                       'leftover': leftover, 'cause': cause},
             impl={'end': rec['impl']['end'], 'outcome': rec['impl_detail']['outcome'],
                   'before': rec['impl_detail']['before'], 'after': rec['impl']['final'],
                   'events': rec['impl']['events']})
@@ -871,7 +980,14 @@ def run(env, res):
                 'files in cwd, in the root and in the out directory; a glob of two files with every falsy out; several files to '
                 'one out file (Error before anything is opened) - same fault selection as the aliasing family. Encoding family: '
                 '8 combinations of encoding/encodingIn/encodingOut x {no out, out equal to in, out another file}: what is '
-                'written must decode in the OUT encoding on every route. A case that does not return within the time limit is a '
+                'written must decode in the OUT encoding on every route. Fault kinds: raise (OSError / the natural Exception), '
+                'raiseBase (KeyboardInterrupt at every fault point incl. formatting; SystemExit and GeneratorExit at the last write and '
+                'the rename; KeyboardInterrupt inside the clean-up os.remove), kill; the close of the SOURCE file (closeIn) is a fault '
+                'point of its own. Overlap family: in matching a file twice (list of overlapping patterns, the same path twice, a glob '
+                'matching a symlink and its target), faults in the first and in the second rewrite; mixed runs (in: [d1/a, d2/a], out: d1/ '
+                '= job 1 in place, job 2 a direct write onto job 1 source; and the disjoint control). in itself a symlink: modelled '
+                '(the link entry is replaced). The error that reaches the caller is compared by kind (Exception vs BaseException). '
+                'File modes before/after a successful in-place rewrite are counted (extra.mode_after_inplace). A case that does not return within the time limit is a '
                 'violation (terminates; limit 30 s, after repeated time-outs in one worker 5 s, then the rest is skipped). non-trivial = a case with a fault')
     workers = env.n(8, 14)
     bases = base_scenarios(env.quick)
@@ -917,25 +1033,38 @@ def run(env, res):
                 rest = [f for f in pts if not want(f)]
                 env.rng.shuffle(rest)
                 pts = [f for f in pts if want(f)] + rest[:1]
+            # BaseExceptions and the close of the source file: exercised on the plain layouts
+            pts = [f for f in pts if f['kind'] != 'raiseBase' and f.get('remove_fails') != 'base'
+                   and not (f['op'] == 'closeIn' and f['kind'] == 'raise')]
             if not b.get('expect_inplace', True):
                 pts = [f for f in pts if f['op'] not in ('replace', 'mkTemp')]
         elif env.quick:
-            core = b['layout'] in ('single-3', 'list-2', 'same-dotslash', 'glob-3')
+            core = b['layout'] in ('single-3', 'list-2', 'same-dotslash', 'glob-3', 'dup-list', 'dup-globlink',
+                                   'mixed-overlap', 'mixed-disjoint')
             keep = []
             for f in pts:
                 k = ks.get(f['src'], 0)
                 edge = f['n'] in (0, 1, k, (k + 1) // 2)
-                if core and edge and (b['layout'] == 'single-3' or f['op'] in ('fmt', 'write', 'replace', 'mkTemp')):
+                if core and edge and (b['layout'] == 'single-3' or
+                                      f['op'] in ('fmt', 'write', 'replace', 'mkTemp', 'closeIn', 'openWrite')):
                     keep.append(f)
             rest = [f for f in pts if f not in keep]
             env.rng.shuffle(rest)
             keep += rest[:2]
             pts = keep
+        elif not (b['layout'].startswith(('single-', 'dup-', 'mixed-')) or b['layout'] in ('list-2', 'glob-3', 'same-dotslash')):
+            # thorough, the other layouts (encodings, out directories, recursive globs, …): Exceptions and kills at
+            # every point as before; BaseExceptions at the last write, the close of the source and the rename
+            pts = [f for f in pts if f['kind'] != 'raiseBase' or
+                   (f['op'] in ('replace', 'closeIn') or (f['op'] == 'write' and f['n'] == ks.get(f['src'], 0)))
+                   and not f.get('exc')]
         cases += [with_fault(b, f) for f in pts]
     for r in run_all(env, cases, workers):
         absorb(res, r)
     res.extra['base_scenarios'] = len(bases)
     res.extra['fault_plans'] = len(cases)
+    res.extra['mode_after_inplace'] = {k.split(':', 1)[1]: v for k, v in res.distribution.items()
+                                        if k.startswith('mode-after-inplace:')}
 
 
 def replay(env, res, payload):
